@@ -52,7 +52,9 @@ Inductive derr :=
 | DSqlCustom (i n : Z)   (* the error accepted by the i-th WithAcceptable option, on a connection made with n of them *)
 | DSqlConnErr            (* the connection provider fails (the database is never reached) *)
 | DSqlScanFail           (* the query succeeds, scanning the rows into the destination fails *)
-| DSqlScanDeadline.      (* iterating the rows ends with context.DeadlineExceeded *)
+| DSqlScanDeadline       (* iterating the rows ends with context.DeadlineExceeded *)
+(* %w-wrapped sentinels: the call sites classify with errors.Is / errors.As *)
+| DWrappedDeadline | DWrappedBreakerUnavailable | DWrappedSqlNoRows | DWrappedSqlTxDone.
 
 (* gRPC codes: Canceled 1 Unknown 2 DeadlineExceeded 4 ResourceExhausted 8 Unimplemented 12
    Internal 13 Unavailable 14 DataLoss 15 *)
@@ -70,7 +72,7 @@ Definition codes_acceptable (d : derr) : bool :=
 (* serverSideAcceptable *)
 Definition server_acceptable (d : derr) : bool :=
   match d with
-  | DCtxDeadline | DBreakerUnavailable => false
+  | DCtxDeadline | DBreakerUnavailable | DWrappedDeadline | DWrappedBreakerUnavailable => false
   | _ => codes_acceptable d
   end.
 
@@ -85,7 +87,8 @@ Definition redis_acceptable (d : derr) : bool :=
    acceptableError (errors.As), then the WithAcceptable options (pre(err) || acceptable(err)) *)
 Definition sql_acceptable (d : derr) : bool :=
   match d with
-  | DNil | DSqlNoRows | DSqlTxDone | DCtxCanceled | DWrappedCanceled | DSqlAcceptable => true
+  | DNil | DSqlNoRows | DSqlTxDone | DCtxCanceled | DWrappedCanceled | DSqlAcceptable
+  | DWrappedSqlNoRows | DWrappedSqlTxDone => true
   | DSqlCustom i n => (1 <=? i) && (i <=? n)
   | _ => false
   end.
@@ -127,9 +130,9 @@ Definition pass_seen (k : wkind) (d : derr) : seen :=
   match d with
   | DNil => SNil
   | DPanic => SPanic
-  | DBreakerUnavailable =>
+  | DBreakerUnavailable | DWrappedBreakerUnavailable =>
     match k with
-    | WGrpcServerUnary | WGrpcServerStream => SStatus 14   (* convertError *)
+    | WGrpcServerUnary | WGrpcServerStream => SStatus 14   (* convertError: errors.Is *)
     | _ => SSame
     end
   | _ => SSame
